@@ -469,7 +469,7 @@ theorem incr_refines (cfg : Store.Cfg) (hInj : InjOn hash K) {n : Nat} {b : Buck
           cases hp : Spec.parseInt r.body with
           | none => exact ⟨by first | rfl | trivial, mono⟩
           | some old =>
-            exact ⟨by first | rfl | trivial, incr_write hash K cfg hInj inv k size wts hk hs (it.ver + 1) (old + delta) (by omega)⟩
+            exact ⟨by first | rfl | trivial, incr_write hash K cfg hInj inv k size wts hk hs (it.ver + 1) (Spec.wrap64 (old + delta)) (by omega)⟩
 
 theorem flush_inv {n : Nat} (cfg : Store.Cfg) {b : Bucket} {m : KV} (inv : Inv hash K n b m) :
     Inv hash K n (Store.step hash cfg b .flush).1 m := by
